@@ -21,10 +21,12 @@ PROFILES = {
     'channels': dict(log=3, await_time=4, chan_put=8, chan_get=4, for_chan=5, chan_close=1, scope=1, do=4, cancel=3,
                      until_time=2, try_chan=2),
     'flows': dict(log=4, await_time=4, collect=5, first=7, scope=1, do=2, until_time=2, try_=2, cancel=1),
+    'resources': dict(log=3, await_time=5, borrow=9, claim=3, increase=2, set_res=1, level=3, scope=1, do=5, cancel=3,
+                      until_time=3, raise_=1, try_=1),
     'mixed': dict(log=5, await_time=6, await_cond=4, set_flag=3, set_tracked=3, scope=2, until_time=2,
                   until_cond=2, do=5, cancel=2, await_task=2, raise_=1, try_=2, with_lock=3, lock_avail=1,
                   put=3, get=3, close_q=1, status=1, try_stream=1, for_queue=1, interval=1, delay_iter=1, chan_put=2,
-                  chan_get=1, for_chan=1, collect=1, first=1),
+                  chan_get=1, for_chan=1, collect=1, first=1, borrow=2, claim=1, increase=1, level=1),
 }
 
 
@@ -32,6 +34,8 @@ class Gen:
     def __init__(self, rng, profile, start=0, nflags=2, ntracked=2, nlocks=2, nqueues=1, maxdepth=3,
                  size=14, allow_inf=False, nchans=1):
         self.nchans = nchans
+        self.res = [[False, 4], [True, 3]]
+        self.nshare = 0
         self.rng = rng
         self.w = PROFILES[profile]
         self.profile = profile
@@ -117,13 +121,14 @@ class Gen:
         items = [(k, v) for k, v in self.w.items() if v > 0]
         if ctx['depth'] >= self.maxdepth:
             items = [(k, v) for k, v in items if k not in ('scope', 'until_time', 'until_cond', 'try_', 'with_lock', 'try_stream',
-                                                           'for_queue', 'for_chan', 'interval', 'delay_iter', 'collect', 'first', 'try_chan')]
+                                                           'for_queue', 'for_chan', 'interval', 'delay_iter', 'collect', 'first', 'try_chan',
+                                                           'borrow', 'claim')]
         if ctx.get('inloop'):
             # loop bodies re-execute: no statement that binds a scope or task name
             # ... and no put: a consumer loop that feeds its own stream never ends (the program's own livelock)
             items = [(k, v) for k, v in items if k not in ('scope', 'until_time', 'until_cond', 'do', 'collect', 'first',
                                                            'for_queue', 'for_chan', 'interval', 'delay_iter', 'put',
-                                                           'chan_put', 'try_stream', 'try_chan')]
+                                                           'chan_put', 'try_stream', 'try_chan', 'borrow', 'claim')]
         if not ctx['scopes'] and not self.all_scopes:
             items = [(k, v) for k, v in items if k != 'do']
         if not self.tasks:
@@ -241,6 +246,31 @@ class Gen:
         if kind in ('interval', 'delay_iter'):
             body = self.block(r.choice([1, 1, 2]), self.sub(ctx, inloop=True))
             return [[kind, r.choice([0, 1, 1, 2, 2, 3]), r.choice([1, 2, 2, 3, 4]), body], ['log', self.k()]]
+        if kind in ('borrow', 'claim'):
+            shares = ctx.get('shares', [])
+            if shares and r.random() < 0.4:
+                base, limit = r.choice(shares)
+            else:
+                base = r.randrange(len(self.res))
+                # may exceed what is there (then it waits / the claim fails), but never the limit of a Capacities share
+                limit = self.res[base][1] + (0 if self.res[base][0] else 1)
+            d = r.randrange(0, max(1, limit) + 1) if base < 100 else r.randrange(0, limit + 1)
+            self.nshare += 1
+            name = 100 + self.nshare
+            body = self.block(self.body_len(), self.sub(ctx, shares=shares + [(name, d)]))
+            st = [kind, base, d, name, body]
+            if kind == 'claim' and r.random() < 0.7:
+                return [['try', [st], [[['exception'], [['log', self.k()]]]], []], ['log', self.k()]]
+            return [st, ['log', self.k()]]
+        if kind == 'increase':
+            return [['increase', 0, r.choice([1, 1, 2])], ['log', self.k()]]
+        if kind == 'set_res':
+            return [['set_res', 0, r.choice([2, 3, 4, 5])], ['log', self.k()]]
+        if kind == 'level':
+            shares = ctx.get('shares', [])
+            if shares and r.random() < 0.5:
+                return [['level', r.choice(shares)[0]]]
+            return [['level', r.randrange(len(self.res))]]
         if kind == 'chan_put':
             return [['chan_put', r.randrange(self.nchans), self.k()]]
         if kind == 'chan_get':
@@ -288,7 +318,7 @@ class Gen:
             roots.append(self.block(max(1, self.size // nroots + r.choice([-1, 0, 1])), ctx))
         return dict(start=self.start, till=till, roots=roots, nflags=self.nflags,
                     tracked=[r.choice([0, 0, 1]) for _ in range(self.ntracked)], nlocks=self.nlocks,
-                    nqueues=self.nqueues, nchans=self.nchans)
+                    nqueues=self.nqueues, nchans=self.nchans, res=self.res)
 
 
 def generate(rng, profile, **kw):
